@@ -487,14 +487,31 @@ func checkC13(c *Ctx, w *World) {
 		}
 		return after(b)
 	}
+	// equivalence with a decision table: "⇒" after quantifying every unrecognised condition away; "⇐" universally in
+	// every condition that is not a loop variable — no further test may stand between the table and the effect
+	postLoop := func(b Bits) Bits {
+		for _, n := range []string{"elAvailable", "elUnavailable", "elRecovering", "elBetterThanTopA", "topNil", "elBetterThanTop"} {
+			b = cs.exists(b, cs.idx["@"+n])
+		}
+		return cs.ForgetLoopVars(b)
+	}
+	tableEq := func(reach, table Bits) (bool, string) {
+		if ok, w := cs.Implies(post(reach), table); !ok {
+			return false, "reached although the table says no: " + w
+		}
+		if ok, w := cs.Implies(table, postLoop(reach)); !ok {
+			return false, "the table says yes but an additional, unrecognised condition guards it: " + w
+		}
+		return true, ""
+	}
 	if sftCall == nil || fbStore == nil {
 		c.fail("C13.decision", "maybeUpdateCurrent: effects", p.pos(m.muc.Pos()), "switchFromTo call or fallback store not found")
 	} else {
-		eq, wit := cs.Equiv(post(cs.Reach(sftCall)), cs.And(cs.Not(early), cs.Not(A("topANil"))))
+		eq, wit := tableEq(cs.Reach(sftCall), cs.And(cs.Not(early), cs.Not(A("topANil"))))
 		c.check(eq, "C13.decision", "switch ⇔ ¬keep-recovering ∧ some endpoint available", p.ipos(sftCall), "switchFromTo(current, top available) is reached exactly when an endpoint is available and the recovering current endpoint is not to be kept", "the switch decision differs from the rule: "+wit)
 		okArgs := isCur(sftCall.Call.Args[1]) && isTopA(sftCall.Call.Args[2])
 		c.check(okArgs, "C13.decision", "switch arguments", p.ipos(sftCall), "from = the current endpoint object (nil if gone), to = the top available endpoint", "switchFromTo is not called with (current, top available)")
-		eq2, wit2 := cs.Equiv(post(cs.Reach(fbStore)), cs.And(cs.Not(A("exists")), A("topANil")))
+		eq2, wit2 := tableEq(cs.Reach(fbStore), cs.And(cs.Not(A("exists")), A("topANil")))
 		c.check(eq2, "C13.fallback-first", "current ← first endpoint", p.ipos(fbStore), "resort to the top-priority endpoint ⇔ the current endpoint is gone and no endpoint is available", "fallback to the first endpoint happens under the wrong condition: "+wit2)
 		f, base, _ := loadedField(fbStore.Val)
 		c.check(f == "endpoint.id" && isTop(base), "C13.fallback-first", "fallback value", p.ipos(fbStore), "the top-priority endpoint's id", "fallback value is not the top-priority endpoint")
